@@ -151,9 +151,12 @@ def mapping_for(fn, reflist):
     kb = [(h, n if n in cur_names else None) for n, h in reflist]
     mp = {}
     used = set()
+    # a reference name that is still *read* somewhere in the function was not renamed away: its binding was (that is a NameError at
+    # run time, i.e. a real change) - recovering it would repair the program under analysis
+    still_read = {x.id for x in ast.walk(fn) if isinstance(x, ast.Name) and isinstance(x.ctx, ast.Load)}
     for i, j in _lcs(ka, kb):
         cn, rn = cur[i][0], reflist[j][0]
-        if cn != rn and cn not in ref_names and rn not in cur_names and rn not in used:
+        if cn != rn and cn not in ref_names and rn not in cur_names and rn not in used and rn not in still_read:
             mp[cn] = rn
             used.add(rn)
     return mp
